@@ -45,12 +45,16 @@ fn build(tier: Tier) -> Vec<Scenario> {
             JobCfg { layout: Layout::Local(2), batch: BatchMode::fixed(2), capacity: 0 },
             // inputs larger than the total channel capacity: capacity 1, one element per batch
             JobCfg { layout: Layout::Local(2), batch: BatchMode::single(), capacity: 1 },
+            // the timeout paths (idle flush, early and late timers) of the default kind of batching
+            JobCfg { layout: Layout::Local(2), batch: BatchMode::adaptive(2, std::time::Duration::from_millis(10)), capacity: 2 },
         ],
         Tier::Thorough => vec![
             JobCfg { layout: Layout::Local(1), batch: BatchMode::single(), capacity: 1 },
             JobCfg { layout: Layout::Local(2), batch: BatchMode::fixed(2), capacity: 0 },
             JobCfg { layout: Layout::Local(2), batch: BatchMode::single(), capacity: 1 },
             JobCfg { layout: Layout::Local(3), batch: BatchMode::fixed(1), capacity: 2 },
+            JobCfg { layout: Layout::Local(2), batch: BatchMode::adaptive(2, std::time::Duration::from_millis(10)), capacity: 2 },
+            JobCfg { layout: Layout::Local(2), batch: BatchMode::adaptive(1024, std::time::Duration::from_millis(50)), capacity: 0 },
         ],
     };
     // a loop body that expands its input: the feedback edge fills up unless the loop head keeps
